@@ -1,3 +1,4 @@
+#define _GNU_SOURCE
 /* Engine "residue" (C13): SAFE_DATA residue scan. One secret class (cipher key material,
  * authentication key material or plaintext) is filled with a pattern byte while everything else is
  * random; after the API call that hands back the last job in flight the trampoline's register record
@@ -65,6 +66,125 @@ scan_all(struct mmgr *mm, uint8_t pat, struct hit *h, int with_mgr)
         if (with_mgr && n < 4 && scan_buf((const uint8_t *) mm->m, imb_get_mb_mgr_size(), pat, &off)) {
                 snprintf(h[n].where, sizeof h[n].where, "mgr");
                 h[n++].off = off;
+        }
+        return n;
+}
+
+/* ---- derived secrets (class 3): values the library computes itself from the key and that are as sensitive as the
+ * key - the GHASH key H = E_K(0) and the tag mask E_K(J0) of GCM-type modes, the one-time Poly1305 key of
+ * ChaCha20-Poly1305, the hash key and end pad of SNOW-V-AEAD. Keys are random here (no pattern byte can mark a value
+ * the library derives), the values are computed with the reference models and every observable location is searched
+ * for either 8-byte half of each value; an accidental match of 64 high-entropy bits does not happen. */
+struct secret {
+        uint8_t v[16];
+        char name[16];
+};
+static int
+derive_secrets(const struct item *it, struct secret *s)
+{
+        int n = 0;
+        uint8_t z[16] = { 0 }, j0[16];
+        const int gmac = it->hash == IMB_AUTH_AES_GMAC_128 || it->hash == IMB_AUTH_AES_GMAC_192 || it->hash == IMB_AUTH_AES_GMAC_256;
+        if (it->cipher == IMB_CIPHER_GCM || it->cipher == IMB_CIPHER_GCM_SGL || gmac) {
+                struct ref_aes_key ak;
+                const uint8_t *iv = gmac && it->cipher != IMB_CIPHER_GCM ? it->aiv : it->iv;
+                const uint32_t ivl = gmac && it->cipher != IMB_CIPHER_GCM ? it->aiv_len : it->iv_len;
+                memset(&ak, 0, sizeof ak);
+                if (gmac && it->cipher != IMB_CIPHER_GCM && it->cipher != IMB_CIPHER_GCM_SGL) {
+                        ak.keylen = it->hash == IMB_AUTH_AES_GMAC_128 ? 16 : it->hash == IMB_AUTH_AES_GMAC_192 ? 24 : 32;
+                        memcpy(ak.key, it->k.akey, (size_t) ak.keylen);
+                } else {
+                        ak.keylen = (int) it->keylen;
+                        memcpy(ak.key, it->k.ckey, it->keylen);
+                }
+                ref_aes_enc(&ak, z, s[n].v);
+                snprintf(s[n++].name, sizeof s[0].name, "H");
+                if (ivl == 12) {
+                        memcpy(j0, iv, 12);
+                        j0[12] = j0[13] = j0[14] = 0;
+                        j0[15] = 1;
+                        ref_aes_enc(&ak, j0, s[n].v);
+                        snprintf(s[n++].name, sizeof s[0].name, "EJ0");
+                }
+        } else if (it->cipher == IMB_CIPHER_SM4_GCM) {
+                ref_sm4_enc(it->k.ckey, z, s[n].v);
+                snprintf(s[n++].name, sizeof s[0].name, "H");
+                if (it->iv_len == 12) {
+                        memcpy(j0, it->iv, 12);
+                        j0[12] = j0[13] = j0[14] = 0;
+                        j0[15] = 1;
+                        ref_sm4_enc(it->k.ckey, j0, s[n].v);
+                        snprintf(s[n++].name, sizeof s[0].name, "EJ0");
+                }
+        } else if (it->cipher == IMB_CIPHER_CHACHA20_POLY1305 || it->cipher == IMB_CIPHER_CHACHA20_POLY1305_SGL) {
+                uint8_t zero[32] = { 0 }, pk[32];
+                ref_chacha20(it->k.ckey, 0, it->iv, zero, pk, 32);
+                memcpy(s[n].v, pk, 16);
+                snprintf(s[n++].name, sizeof s[0].name, "POLY-R");
+                memcpy(s[n].v, pk + 16, 16);
+                snprintf(s[n++].name, sizeof s[0].name, "POLY-S");
+        } else if (it->cipher == IMB_CIPHER_SNOW_V_AEAD) {
+                uint8_t ks[32];
+                ref_snowv_keystream(it->k.ckey, it->iv, 1, ks, 32);
+                memcpy(s[n].v, ks, 16);
+                snprintf(s[n++].name, sizeof s[0].name, "H");
+                memcpy(s[n].v, ks + 16, 16);
+                snprintf(s[n++].name, sizeof s[0].name, "ENDPAD");
+        }
+        return n;
+}
+static const uint8_t *
+find8(const uint8_t *hay, size_t n, const uint8_t *v)
+{
+        const uint8_t *a = memmem(hay, n, v, 8);
+        return a ? a : memmem(hay, n, v + 8, 8);
+}
+static int g_value_mode, g_value_njobs;
+static uint64_t n_value_searches;
+struct vhit {
+        char where[24], name[16];
+        long off;
+};
+static struct vhit g_vhit[4];
+static int
+scan_values(struct mmgr *mm)
+{
+        struct tramp_ctx *tc = &g_cm->tc;
+        int n = 0;
+        for (int i = 0; i < g_value_njobs && n < 4; i++) {
+                struct secret s[4];
+                const int ns = derive_secrets(I[i], s);
+                for (int k = 0; k < ns && n < 4; k++) {
+                        const uint8_t *a;
+                        /* skip degenerate values (a half consisting of one repeated byte could match public padding) */
+                        int degenerate = 1;
+                        for (int b = 1; b < 8; b++)
+                                if (s[k].v[b] != s[k].v[0] || s[k].v[8 + b] != s[k].v[8])
+                                        degenerate = 0;
+                        if (degenerate)
+                                continue;
+                        n_value_searches++;
+                        const char *where = NULL;
+                        long off = 0;
+                        if ((a = find8((const uint8_t *) tc->out_gpr, sizeof tc->out_gpr, s[k].v))) {
+                                where = "gpr";
+                                off = a - (const uint8_t *) tc->out_gpr;
+                        } else if ((a = find8(tc->vec, sizeof tc->vec, s[k].v))) {
+                                where = "vec-reg";
+                                off = (a - tc->vec) / 64;
+                        } else if (g_cm->stackcopy && (a = find8(g_cm->stackcopy, TRAMP_STACK_WINDOW, s[k].v))) {
+                                where = "stack";
+                                off = (a - g_cm->stackcopy) - TRAMP_STACK_WINDOW;
+                        } else if ((a = find8((const uint8_t *) mm->m, imb_get_mb_mgr_size(), s[k].v))) {
+                                where = "mgr";
+                                off = a - (const uint8_t *) mm->m;
+                        }
+                        if (where) {
+                                snprintf(g_vhit[n].where, sizeof g_vhit[n].where, "%s", where);
+                                snprintf(g_vhit[n].name, sizeof g_vhit[n].name, "%s", s[k].name);
+                                g_vhit[n++].off = off;
+                        }
+                }
         }
         return n;
 }
@@ -181,7 +301,7 @@ run_schedule(struct mmgr **pmm, int cfg, const struct suite *cs, const struct su
                 if (g_opt.verbose)
                         fprintf(stderr, "submit %d -> outstanding %d\n", i, outstanding);
                 if (outstanding == 0 && i == njobs - 1) {
-                        nh = scan_all(mm, pat, h, 1);
+                        nh = g_value_mode ? scan_values(mm) : scan_all(mm, pat, h, 1);
                         scanned = 1;
                 }
         }
@@ -192,7 +312,7 @@ run_schedule(struct mmgr **pmm, int cfg, const struct suite *cs, const struct su
                 if (g_opt.verbose)
                         fprintf(stderr, "flush -> job of item %p outstanding %d\n", r->user_data, outstanding);
                 if (outstanding == 0) {
-                        nh = scan_all(mm, pat, h, 1);
+                        nh = g_value_mode ? scan_values(mm) : scan_all(mm, pat, h, 1);
                         scanned = 1;
                 }
         }
@@ -332,9 +452,44 @@ eng_residue(void)
                                 nj = njs[rng_below(&r, ARRAY_SZ(njs))];
                         int lenmode = (int) rng_below(&r, 3);
                         uint64_t seed = rng_u64(&r);
-                        for (int cls = 0; cls < 3; cls++) {
+                        for (int cls = 0; cls < 4; cls++) {
                                 if (cls == 0 && !cs)
                                         continue;
+                                if (cls == 3) {
+                                        /* derived secrets of the AEAD-type modes, searched by value */
+                                        const int gm = hs && (hs->hash == IMB_AUTH_AES_GMAC_128 || hs->hash == IMB_AUTH_AES_GMAC_192 ||
+                                                              hs->hash == IMB_AUTH_AES_GMAC_256);
+                                        if (!(cs && cs->aead) && !(gm && !cs))
+                                                continue;
+                                        struct hit hd[4];
+                                        int skipped = 0;
+                                        g_value_mode = 1;
+                                        g_value_njobs = nj;
+                                        const int nv = run_schedule(&mm, cfg, cs, hs, seed, nj, 3, 0, lenmode, hd, &skipped);
+                                        g_value_mode = 0;
+                                        n_sched++;
+                                        if (skipped)
+                                                continue;
+                                        n_scans++;
+                                        cov_hit("C13", "%s|%s|%s|DERIVED|n%d|lm%d", variant_name(mm->variant), cs ? cipher_name(cs->cipher) : "-",
+                                                hs ? hash_name(hs->hash) : hash_name(cs->hash), nj, lenmode);
+                                        for (int a = 0; a < nv; a++) {
+                                                char key[240], det[400];
+                                                snprintf(key, sizeof key, "C13|%s|%s|%s|DERIVED-%s|%s", variant_name(mm->variant),
+                                                         cs ? cipher_name(cs->cipher) : "-", hs ? hash_name(hs->hash) : hash_name(cs->hash),
+                                                         g_vhit[a].name, g_vhit[a].where);
+                                                snprintf(det, sizeof det,
+                                                         "derived secret %s of a completed job (8 bytes of its value, computed by the reference model) found in "
+                                                         "%s at %ld after the call that returned the last of %d job(s) (length mode %d)",
+                                                         g_vhit[a].name, g_vhit[a].where, g_vhit[a].off, nj, lenmode);
+                                                ev_violation("C13", key, det, item_describe(I[0]));
+                                        }
+                                        if (nv) {
+                                                mm_free(mm);
+                                                mm = mm_new(cfg);
+                                        }
+                                        continue;
+                                }
                                 if (cls == 1 && !hs && !(cs && cs->aead))
                                         continue;
                                 if (cls == 1 && cs && cs->aead && !hs)
@@ -389,5 +544,6 @@ eng_residue(void)
         cov_count("residue_scans", n_scans);
         cov_count("single_pattern_hits", n_single_hits);
         cov_count("helper_scans", n_helper_scans);
+        cov_count("derived_secret_searches", n_value_searches);
         return 0;
 }
